@@ -246,6 +246,7 @@ func (pc *PartitionContext) updateQueues(config []configs.QueueConfig, parent *o
 				// ApplyConf sets sq.properties to only this queue's config properties; merge uses
 				// those properties directly instead of passing config again.
 				queue.MergeParentProperties()
+				queue.InheritParentTemplate()
 			}
 		}
 		if err != nil {
